@@ -796,6 +796,7 @@ def run(prop, tier, seed, timeout_s, args, t_start):
                     rec["result"] = "known-finding"
                     known_lines.append((kf.get("id", ""), kf.get("what", "")))
                     continue
+                internal = rec["kind"] == "c-inv"      # loop-cut artefact: only a failure on the real code makes it a violation
                 data = {"property": prop, "obligation": f"{rec['contract']} :: {rec['name']}", "kind": rec["kind"],
                         "where": rec["where"], "model": rec.get("model", {}), "solver": rec["backend"],
                         "reproduced": False, "observed": None, "rerun": f"cd {HERE} && ./check {prop} --tier quick"}
@@ -817,6 +818,10 @@ def run(prop, tier, seed, timeout_s, args, t_start):
                     except Exception as e:
                         data["observed"] = f"replay harness error: {e}"
                 data["reproduced"] = reproduced
+                if internal and not reproduced:
+                    rec["result"] = "proof-broken"
+                    rec["raw"] = "loop invariant no longer inductive; no failing input on the real code"
+                    continue
                 if not reproduced:
                     data["note"] = "no-failing-input-found: the obligation is refuted by the solver; the counter-model " \
                                    "did not reproduce on the real code (or no witness builder exists)"
